@@ -975,6 +975,8 @@ def _eliminate_aliases(fn):
             tagged, target = st.value.id, st.targets[0].id
             if tagged == target or target in {a.arg for a in ast.walk(fn.args) if isinstance(a, ast.arg)}:
                 continue
+            if not binds.get(tagged):
+                continue  # a name of the enclosing function (this is a closure): it is not this function's to rename
             before, after = fn.body[:k], fn.body[k + 1:]
             if any(mentions(x, tagged) for x in after) or any(mentions(x, target) for x in before):
                 continue
